@@ -58,27 +58,34 @@ check('C02', 'proof',
 
 check('C03', 'proof',
       'Lean model of Python `decimal` under a context (precision p, half-even), `_get_digital_value`, sign handling and '
-      '`CultureInfo.format`, with the ten cultures\' parser configurations regenerated from the working tree each run. Proved: '
-      'digital_exact / digital_exact_neg (a run of <= 15 ASCII digits, with or without sign, resolves exactly, for every '
-      'separator configuration), separators_distinct, comma_dot_cultures, digital_round16; number_literal / percent_literal / '
-      'format_canonical by kernel evaluation of 8 literal shapes per regenerated culture. The general grouped/decimal case is '
-      'NOT a theorem: it is carried by unit correspondence (~130k decimal / parser / format operations per run against '
-      'CPython and the parser) and the pipeline oracle (literal shape x boundary magnitude x culture through '
-      'recognize_number / recognize_percentage, value, decimal mark and absence of grouping compared).',
+      '`CultureInfo.format`, with the ten cultures\' parser configurations regenerated from the working tree each run. Proved '
+      'for each regenerated configuration and EVERY well-formed literal (plain, grouped, decimal, grouped+decimal, optionally '
+      'negative) of at most 15 digits written with that culture\'s own marks: digital_exact_literal and its shape corollaries '
+      '(the parser returns exactly the number written; the one exact guard — a single grouping mark without fraction must be '
+      'standard grouping in the multi-decimal-separator cultures — has a witness); format_canonical_general (for adjusted '
+      'exponent >= -6 the resolution consists of digits, an optional sign and the culture\'s decimal mark only: no exponent, '
+      'never the grouping mark); percent_literal_general (percentage = number resolution + one %, all cultures but zh-cn); '
+      'digital_round16; facts on the regenerated configurations (marks read = marks written, grouping mark foreign to the '
+      'output). "No trailing zeros / reads back as the value" is NOT proved in general (closed instances + unit '
+      'correspondence of format). Tie: ~130k decimal / parser / format operations per run against CPython and the parser, and '
+      'the pipeline oracle (literal shape x boundary magnitude x culture through recognize_number / recognize_percentage).',
       TB + 'Extractor regexes and the percentage position map are monitored only. 8 recorded findings (CJK grouped percentages).',
-      'Lean 4 proof + regenerated configurations + unit and pipeline correspondence',
+      'Lean 4 proof (general over literals and configurations) + regenerated configurations + unit and pipeline correspondence',
       'DESIGN.md §3 C03')
 
 check('C04', 'proof',
       'english_cardinal / english_ordinal: getIntValue en (spell n v) = n and the ordinal analogue for ALL n < 10^15 and all 8 '
-      'spelling variants (with/without "and", hyphenated or spaced tens), by induction over the group structure through the '
-      'round-number step lemma, with the finite word facts evaluated by the kernel on the regenerated English maps '
-      '(spell_words_in_maps: a changed map entry breaks an obligation). The Lean `spell` function is the generator the harness '
-      'uses. Other cultures (es, fr, pt, de, it, nl, zh, ja): no theorem; their regenerated maps instantiate the shared '
-      'algorithm, tied by unit correspondence (~60k operations) and the pipeline oracle with hand-written numeral generators.',
-      TB + 'Tokenisation by text_number_regex is tied by a tokenisation correspondence, extraction regexes by the pipeline only. '
+      'spelling variants, by induction over the group structure, with the finite word facts evaluated by the kernel on the '
+      'regenerated English maps (a changed map entry breaks an obligation). Other cultures, with their regenerated maps and '
+      'their own resolve_composite_number, by kernel evaluation over the whole range: spanish_ / portuguese_ / german_ / '
+      'dutch_sub1000 (all n < 1000), french_sub1000_partial and italian_sub1000_partial (exact guards + witnesses that are the '
+      'recorded findings: plural `cents`, accented `-tré`), cjk_int_zh (all n < 10000), cjk_int_ja_partial (exact guard + '
+      'witnesses 二百十八 -> 228). The Lean spell functions are the generators the harness uses; text_number_regex must tokenise '
+      'each numeral into exactly the specification\'s tokens. Unit correspondence (~60k operations) and the pipeline oracle '
+      'for nine cultures.',
+      TB + 'Extraction regexes are tied by the pipeline only; above 1000 (European) / 10000 (CJK) the other cultures have no theorem. '
       '15 recorded findings (regex / resource data of fr, it, pt, ja and English ordinals).',
-      'Lean 4 proof by induction over the numeral group structure + regenerated maps + unit/pipeline correspondence',
+      'Lean 4 proof (induction for English, kernel evaluation over full ranges for the other cultures) + regenerated maps + unit/pipeline correspondence',
       'DESIGN.md §3 C04')
 
 check('C06', 'proof',
@@ -184,7 +191,9 @@ check('C13', 'proof',
       'drop_zeros_same_address / _canonical / _group_value; ip_extract_sound, guid_extract_sound (every reported entity has '
       'the span of a regex match). Pipeline: recognize_ip_address / recognize_guid against Python\'s ipaddress / uuid as '
       'independent oracles (10^4 boundary quads, seeded v4/v6 at every compression position, near misses, 4 GUID layouts, '
-      'carrier sentences). E-mail, URL, hashtag, mention, phone: grammar-generated strings, correspondence only.',
+      'carrier sentences; zh-cn / ja-jp models too). Hashtag, mention and e-mail languages are proved as well (hashtag_lang, '
+      'hashtag_reported_span, mention_lang, mention_reported_span, email_lang); URL and phone patterns are translated and under '
+      'the regex correspondence, but have no theorem (pipeline oracle only).',
       TB + 'IPv6 exact reported span (no uniqueness theorem: `1::2` is also a match inside `1::2:3`), QueryProcessor.preprocess and the '
       'e-mail/URL/hashtag/mention/phone regexes are covered by correspondence only. The `regex` module\'s own \\d/\\w/\\s tables are exported each run.',
       'Lean 4 proofs on regex ASTs regenerated from source + regex/unit/pipeline correspondence',
@@ -196,9 +205,10 @@ check('C14', 'proof',
       'parse_format_fields (parse∘format∘parse = parse), format_idempotent, canonical_fixed; from_date / from_date_time / '
       'from_time produce the canonical ISO rendering for every valid date 0001..9999 and every time; the pattern texts, '
       'TimexCreator constants and DAYS the proofs were written for are re-read from the tree each run (genCfg_ok). '
-      'Also proved: date+time and date+part-of-day combinations (format_parse_DT, parse_norm_DT) and integer durations for all '
-      'seven units (parse_dur, format_dur, duration_int_roundtrip). Fractional duration amounts are NOT proved in general '
-      '(decided instances, correspondence ~18k parse + 10k from_* cases per quick run, property oracles).',
+      'Also proved: date+time and date+part-of-day combinations, integer durations for all seven units (parse_dur, format_dur, '
+      'duration_int_roundtrip) and fractional amounts (duration_frac_roundtrip, under the exact guard that str(Decimal) stays '
+      'plain; the other side of the guard is the recorded tiny-amount finding). Correspondence ~18k parse + 10k from_* cases, a '
+      'regex-independent constructor field grid and a committed corpus of 915 canonical strings.',
       TB + 'CPython Decimal printing is modelled (incl. scientific form). One recorded finding: tiny-amount-scientific.',
       'Lean 4 proof about a faithful model + unit correspondence against the working tree\'s package',
       'DESIGN.md §3 C14')
@@ -261,22 +271,32 @@ check('C17', 'proof',
 check('C18', 'translation_validation',
       'Exhaustive on every run: the repository\'s own resource generator is re-run on Patterns/*.yaml for every entry of the '
       'five resource-definitions.json and compared with the checked-in module definition by definition (source text and '
-      'evaluated attribute values); a finite artefact equality is decided by comparison, not by a theorem. Lean proves, for '
-      'ALL strings, that what the emitter writes evaluates back to the YAML definition (sanitize_fstring_roundtrip: '
-      'f\'…\' of sanitize(d) = d; create_entry_roundtrip: "…" of create_entry(e) = e unless e holds a raw newline), and that '
-      'model is tied to lib/code_writer.py by unit correspondence.',
-      TB + 'ruamel.yaml replaced by a shim over vendored PyYAML with YAML-1.2 resolvers; the generator under test is the repo\'s own.',
-      'translation validation (exhaustive regeneration diff) + Lean 4 proofs about the emitter\'s escaping functions',
+      'evaluated attribute values); a finite artefact equality is decided by comparison, not by a theorem. Lean supplies a '
+      'verified reference emitter for the WHOLE generator (every writer of code_writer.py behind generate_code\'s dispatch, '
+      'generate\'s file assembly incl. str.splitlines) that must be byte-identical to the repository\'s generator on every one '
+      'of the 3,732 definitions / 45 modules, and an evaluator of the emitted text (f-strings with {Name}/{Cls.Name} fields, '
+      'plain and raw literals, dict and list entries) whose values must equal the attributes of the imported checked-in '
+      'modules. Proved for ALL definitions: nested_regex_faithful (evalF(sanitize d refs) = subst d refs for distinct plain / '
+      'dotted reference names; witnesses for a duplicated and a non-name reference), simple_/params_regex_faithful, '
+      'regex_definition_faithful, dictionary_faithful + dict_entry_faithful (surrogate-pair witness), list_entry_raw / '
+      'list_faithful (witnesses for odd backslash runs), default_writer_value/_faithful, bool_writer_faithful, '
+      'block_single_line (U+2028 witness), sanitize_fstring_roundtrip, create_entry_roundtrip.',
+      TB + 'ruamel.yaml replaced by a shim over vendored PyYAML with YAML-1.2 resolvers; the generator under test is the repo\'s own; '
+      'YAML reading and the header import statements are not modelled.',
+      'translation validation (exhaustive regeneration diff) + Lean 4 verified reference emitter and evaluator + proofs that emitted text evaluates back',
       'DESIGN.md §3 C18')
 
 check('C19', 'other',
       'Exhaustive replay of the Python-supported Specs corpus (14,914 cases: model / extractor / parser / merged-parser '
       'levels) through the repository\'s own runner against the working tree on every run; each failing case is reported as a '
-      'concrete failing input. Not a proof: the subject is the whole un-modelled implementation on a literal corpus; the '
-      'Lean models take part through the other properties\' correspondence runs, which start from the same corpus.',
+      'concrete failing input. For the spec families the Lean models cover end to end (108 cases: English and Chinese '
+      'IpAddressModel, GUIDModel, English BooleanModel) the model is a kernel-checked intermediary: RTV.Props.C19 proves '
+      'model(input) = expected entities for every regenerated case (spec_ip_cases, spec_ip_cases_zh, spec_guid_cases, '
+      'spec_boolean_cases by decide +kernel) and the correspondence gives implementation = model on the same inputs. For '
+      'all other cases no theorem applies: the subject is the whole un-modelled implementation on a literal corpus.',
       'Trusted: the repository\'s test runner (Python/tests), pytest, the datedelta/grapheme shims. The pinned 204-test suite '
       'never touches /repo\'s recogniser code (it imports site-packages); this check sets PYTHONPATH to the working tree.',
-      'exhaustive differential replay of the Specs corpus (no theorem can apply; see DESIGN.md §5)',
+      'exhaustive differential replay of the Specs corpus + kernel-checked model = spec obligations for 108 cases',
       'DESIGN.md §3 C19')
 
 check('C20', 'proof',
